@@ -1282,9 +1282,42 @@ func c20RunProc(fs []string) string {
 
 // ---------------------------------------------------------------- one case
 
+// c20RunRealBin: payload `realbin`. The hypothesis of scan_finds_archive checked on the REAL interpreter
+// binary built from the tree under test: in `bin ++ marker` the first occurrence of the marker is at
+// |bin| (so neither a string constant of the Go binary nor a straddling tail is taken for the marker),
+// and started as it is (not packed) RunPackedBinary falls through (plain_binary_falls_through).
+// result: realbin hbin=<1|0:first-occurrence-at-N> plain=<fall|…>
+func c20RunRealBin() string {
+	cli, err := c20CLIPath()
+	if err != nil {
+		return "ERR " + oneLine(err.Error())
+	}
+	bin, err := os.ReadFile(cli)
+	if err != nil {
+		return "ERR " + oneLine(err.Error())
+	}
+	mk := c20FactsCached().marker
+	hbin := "1"
+	if i := bytes.Index(append(append([]byte{}, bin...), mk...), mk); i != len(bin) {
+		hbin = fmt.Sprintf("0:first-occurrence-at-%d-of-%d", i, len(bin))
+	}
+	// the longest beginning of the marker that occurs in the binary (information only)
+	longest := 0
+	for k := len(mk) - 1; k > 0; k-- {
+		if bytes.Contains(bin, mk[:k]) {
+			longest = k
+			break
+		}
+	}
+	CountRun(fmt.Sprintf("real interpreter binary: %d bytes, longest marker prefix inside it: %d of %d bytes", len(bin), longest, len(mk)))
+	r := strings.Split(c20ExecInProcess(cli, -1, c20Trees[0], 0, ""), " ")
+	return "realbin hbin=" + hbin + " plain=" + r[len(r)-1]
+}
+
 // c20RunOut: payload `out <variant> <n> <k> <rc>` — what happens AFTER the scan (model: `outcome`):
 // ok | badzip (end record destroyed) | emptyzip (file ends after the marker) | parseerr | rterr
-// (runtime error: printed, exit 0) | string (result is not a number: exit 0) | float (7.9 -> 7) | negative.
+// (runtime error: printed, exit 0) | string (result is not a number: exit 0) | float (7.9 -> 7) | negative |
+// exesuffix (the file is app.exe, the program is started as app: the suffix branch meant for Windows).
 // result: out off=<pos> <exit=<rc>|fail|fall>
 func c20RunOut(fs []string) string {
 	if len(fs) != 5 {
@@ -1324,7 +1357,15 @@ func c20RunOut(fs []string) string {
 		return "ERR pack " + oneLine(err.Error())
 	}
 	start := n + len(c20FactsCached().marker)
+	exe := dst
 	switch variant {
+	case "exesuffix":
+		// the branch for Windows: the name the program was started with lacks the suffix of the file
+		os.Remove(dst + ".exe")
+		if err := os.Rename(dst, dst+".exe"); err != nil {
+			return "ERR rename"
+		}
+		defer os.Remove(dst + ".exe")
 	case "badzip":
 		data, _ := os.ReadFile(dst)
 		for i := len(data) - 22; i < len(data); i++ {
@@ -1334,7 +1375,7 @@ func c20RunOut(fs []string) string {
 	case "emptyzip":
 		os.Truncate(dst, int64(start))
 	}
-	r := strings.Split(c20ExecInProcess(dst, int64(start), c20Trees[0], 0, entryText), " ")
+	r := strings.Split(c20ExecInProcess(exe, int64(start), c20Trees[0], 0, entryText), " ")
 	if len(r) < 2 {
 		return "out " + strings.Join(r, " ")
 	}
@@ -1510,6 +1551,9 @@ func c20Run(payload string) string {
 	if fs[0] == "out" {
 		return c20RunOut(fs)
 	}
+	if fs[0] == "realbin" {
+		return c20RunRealBin()
+	}
 	if fs[0] == "rt" {
 		return c20RunRandomTree(fs)
 	}
@@ -1619,7 +1663,11 @@ func c20ExecInProcess(exe string, trueStart int64, tree *c20Tree, treeNo int, en
 			return off + " misfound"
 		}
 		// the section handed to the zip reader ends at the end of the file (archive_exact)
-		if st, err := os.Stat(exe); err != nil || c20Hook.pos+c20Hook.len != st.Size() {
+		st, err := os.Stat(exe)
+		if err != nil {
+			st, err = os.Stat(exe + ".exe")
+		}
+		if err != nil || c20Hook.pos+c20Hook.len != st.Size() {
 			return off + fmt.Sprintf(" section-length:%d", c20Hook.len)
 		}
 	}
@@ -1982,8 +2030,11 @@ func c20Gen(g *Gen) {
 		g.Count("sequence")
 		g.Emit(fmt.Sprintf("seq %s %o %d %d %d %d %s", sc.first, sc.mode, sc.n2, sc.k2, sc.t2, 30+i, p))
 	}
+	// 1d0. the real interpreter binary satisfies the hypothesis of scan_finds_archive; unpacked it falls through
+	g.Count("real interpreter binary: hypothesis check")
+	g.Emit("realbin")
 	// 1d. after the scan: zip error, parse error, runtime error, non-numeric / fractional / negative result
-	for vi, v := range []string{"ok", "badzip", "emptyzip", "parseerr", "rterr", "string", "float", "negative"} {
+	for vi, v := range []string{"ok", "badzip", "emptyzip", "parseerr", "rterr", "string", "float", "negative", "exesuffix"} {
 		for _, n := range []int{0, f.bufSize - 1, 2*f.bufSize + 5} {
 			g.Count("after the scan: " + v)
 			g.Emit(fmt.Sprintf("out %s %d %d %d", v, n, vi%2, 5+vi))
